@@ -141,7 +141,9 @@ BSetPending(b, flag) ==
 BGetPending(b, k) ==
     /\ UNCHANGED <<db, bops, bpendOn, bpend, bwritten>>
     /\ Log(Rec("getpending", b, k, 0, <<>>, <<>>, 0),
-           IF bpend[b][k] = Unset THEN <<"pend", FALSE, Absent>>
+           \* the API returns (deleted, value-or-nil): a pending put of the EMPTY value is not distinguishable from
+           \* "nothing pending" (goleveldb's batch replay even hands the empty value over as nil), so both read Absent
+           IF bpend[b][k] = Unset \/ bpend[b][k] = 0 THEN <<"pend", FALSE, Absent>>
            ELSE IF bpend[b][k] = Tomb THEN <<"pend", TRUE, Absent>>
            ELSE <<"pend", FALSE, bpend[b][k]>>)
 
